@@ -131,9 +131,9 @@ FIXED = {
  "fs:unknown-upload-code": "4609ab3", "fs:list-parts-unknown-upload": "4609ab3",
  "fs:part-number-not-validated": "205d9a8",
  "fs:stale-checksum-after-complete": "47e9b00", "fs:stale-metadata-after-complete": "47e9b00",
- "fs:stale-checksum-after-copy": "aa68bb7", "fs:stale-metadata-after-copy": "aa68bb7",
- "fs:delete-objects-duplicate-key": "7d30be5", "fs:delete-objects-omits-missing-keys": "7d30be5",
- "fs:list-parts-unordered": "1d762a7",
+ "fs:stale-checksum-after-copy": "8faafe7", "fs:stale-metadata-after-copy": "8faafe7",
+ "fs:delete-objects-duplicate-key": "c55c267", "fs:delete-objects-omits-missing-keys": "c55c267",
+ "fs:list-parts-unordered": "764f144",
 }
 # repairs whose text says explicitly that it describes the code before the repair
 BEFORE = {"fs:head-missing-key-code", "fs:delete-missing-key-error", "fs:missing-bucket-reported-as-missing-key",
